@@ -3,7 +3,7 @@ Use FILE:name:<<< separators: lines starting with '==> name' start another file.
 import sys, os, json
 sys.path.insert(0, os.path.dirname(os.path.dirname(os.path.abspath(__file__))))
 from vlib import driver
-os.environ.setdefault('VERIF_WORK', '/tmp/vx-try')
+os.environ.setdefault('VERIF_WORK', '/tmp/vx-try-%d' % os.getppid())
 ws = driver.Workspace(keep=True)
 cur = 't.case'; files = {cur: ''}
 for line in sys.stdin.read().splitlines(True):
